@@ -241,3 +241,41 @@ def smchart_step(op: int, i: int, v: str, f0: str) -> bool:
     for j, k in enumerate(SM_CHART_PROPERTIES):
         setattr(other, k.lower(), model[j])
     return ch == other
+
+
+def _known_props(cls):
+    return sorted(n for n in dir(cls) if isinstance(getattr(cls, n, None), property) and n != "charts")
+
+
+CLASSES = [SMSimfile, SSCSimfile, SSCChart, SMChart]
+PROPS = [_known_props(c) for c in CLASSES]
+
+
+def all_props(ci: int, pi: int, v: str, w: str) -> bool:
+    """
+    pre: 0 <= ci < len(CLASSES) and 0 <= pi < len(PROPS[ci])
+    pre: len(v) <= L1 and len(w) <= L1
+    post: _
+    """
+    # every known-property attribute (regenerated by introspection) reads and writes the key spelled like the attribute in
+    # upper case, and nothing else
+    cls = CLASSES[ci]
+    name = PROPS[ci][pi]
+    key = name.upper()
+    if cls is SMChart:
+        obj = SMChart.from_msd(["a", "b", "c", "d", "e", "f"])
+        before = dict(obj)
+    else:
+        obj = cls() if cls is SSCChart else cls(string="")
+        obj["ZZFRESH"] = "z"
+        before = dict(obj)
+    setattr(obj, name, v)
+    if obj[key] != v or getattr(obj, name) != v:
+        return False
+    obj[key] = w
+    if getattr(obj, name) != w:
+        return False
+    after = dict(obj)
+    after.pop(key)
+    before.pop(key, None)
+    return after == before
